@@ -13,12 +13,28 @@ def run(R, env):
     R.rule("C05.R1", "Withdraw: payout formula roles, own request only, claim removed on every success path, Received batches only (same obligations as C02.R1)")
     R.rule("C05.R2", "LiquidUnstake per world of the caller's existing request: Some => the request keeps batch_id and user and amount := old + paid; None => new request {pending id, sender, paid} under key (pending id, sender); in both the pending batch total += the same paid amount, and unstake_requests_count += 1 only in world None")
     R.rule("C05.R3", "keys: every unstake_requests() write uses key (batch id, user) equal to the record's own batch_id/user; the unique index is (user, batch_id)")
+    R.rule("C05.R4", "the amount received for a batch is fixed once the batch is Received: only a Submitted batch can take a delivery, so a payout does not depend on the order or timing of other withdrawals (rule bodies of C06.R2/R3 for ReceiveUnstakedTokens)")
     R.assume("sum of payouts <= received is an arithmetic consequence of floor and batch_total == sum(requests) (R2); not machine-checked")
     sites = shared.site_contexts(prog, CRATE, env)
     if "Withdraw" not in sites or "LiquidUnstake" not in sites:
         R.ob("C05.R1", "handlers", False, "Withdraw/LiquidUnstake not dispatched", fn="staking::contract::execute")
         return
     shared.withdraw_rules(R, env, prog, sites["Withdraw"], "C05.R1", "C05")
+    from engine.runner import Remap
+    from . import C06
+
+    class _OnlyReceive(Remap):
+        def ob(self, rule, instance, ok, detail="", loc=None, fn=None, found=None):
+            if not instance.startswith("ReceiveUnstakedTokens"):
+                return bool(ok)
+            return Remap.ob(self, rule, instance, ok, detail, loc, fn, found)
+
+        def floor(self, rule, what, count, minimum):
+            if "ReceiveUnstakedTokens" not in what:
+                return None
+            return Remap.floor(self, rule, what, count, minimum)
+
+    C06.run(_OnlyReceive(R, {"C06.R2": "C05.R4", "C06.R3": "C05.R4"}), env)
     h = sites["LiquidUnstake"]
     hk = h.body.key
     paid = lambda t: shared.is_paid(prog, t, LST)
